@@ -1,6 +1,133 @@
-//! C04 — not built yet.
+//! C04 — Zinc text conforms to the Project Haystack grammar in both directions.
+//!
+//! The independent implementation written from the specification is the pair
+//!   reference WRITER  harness/src/spell.rs (Rust; picks among all legal spellings at random)
+//!   reference READER  lean/Hs/Spec/ZincRead.lean (Lean; request `C04 read H(text)`)
+//! input: `w <VX value>`            write direction: the reference reader must read to_zinc_string(v) as v
+//!        `r <seed> <VX value>`     read direction: from_str(spell(v, seed)) must equal v in every
+//!                                  component; the reference reader must read the spelling as v too
+//! In both directions the "implementation reply" of the `read` request is the value itself.
+
 use crate::ctx::{CaseOut, Ctx};
+use crate::gen::{self, Cfg};
+use crate::rng::Rng;
+use crate::same;
+use crate::spell;
+use crate::vx;
+use libhaystack::encoding::zinc::decode::from_str;
+use libhaystack::encoding::zinc::encode::to_zinc_string;
+use libhaystack::val::*;
 
-pub fn exec(_label: &str, _input: &str, _out: &mut CaseOut) {}
+/// the VX text a reader must produce for `v` (an empty meta is an absent meta)
+fn expected(v: &Value) -> String {
+    fn norm(v: &Value) -> Value {
+        match v {
+            Value::List(l) => Value::List(l.iter().map(norm).collect()),
+            Value::Dict(d) => Value::Dict(d.iter().map(|(k, v)| (k.clone(), norm(v))).collect()),
+            Value::Grid(g) => {
+                let nd = |d: &Dict| -> Dict { d.iter().map(|(k, v)| (k.clone(), norm(v))).collect() };
+                Value::Grid(Grid {
+                    meta: g.meta.as_ref().filter(|m| !m.is_empty()).map(nd),
+                    columns: g.columns.iter().map(|c| Column { name: c.name.clone(), meta: c.meta.as_ref().filter(|m| !m.is_empty()).map(nd) }).collect(),
+                    rows: g.rows.iter().map(nd).collect(),
+                    ver: g.ver.clone(),
+                })
+            }
+            Value::Number(n) if n.value.is_nan() => Value::make_number(f64::NAN),
+            other => other.clone(),
+        }
+    }
+    vx::show(&norm(v))
+}
 
-pub fn generate(_ctx: &mut Ctx) {}
+pub fn exec(_label: &str, input: &str, out: &mut CaseOut) {
+    let (mode, rest) = input.split_once(' ').unwrap_or((input, ""));
+    match mode {
+        "w" => {
+            let v = match vx::parse(rest) {
+                Some(v) => v,
+                None => return out.fail("harness", "unparsable VX input".into()),
+            };
+            out.nontrivial = true;
+            out.stat(&format!("w:{}", crate::c01::kind_name(&v)));
+            match to_zinc_string(&v) {
+                Ok(t) => out.req(format!("C04 read {}", vx::h(&t)), format!("ok {}", expected(&v))),
+                Err(e) => out.fail("enc_err", format!("to_zinc_string failed on a well-formed value: {e}")),
+            }
+        }
+        "r" => {
+            let (seed, vtxt) = rest.split_once(' ').unwrap_or(("1", ""));
+            let v = match vx::parse(vtxt) {
+                Some(v) => v,
+                None => return out.fail("harness", "unparsable VX input".into()),
+            };
+            out.nontrivial = true;
+            out.stat(&format!("r:{}", crate::c01::kind_name(&v)));
+            let mut rng = Rng::new(seed.parse().unwrap_or(1));
+            let t = spell::spell(&mut rng, &v);
+            // the two reference artefacts must agree with each other …
+            out.req(format!("C04 read {}", vx::h(&t)), format!("ok {}", expected(&v)));
+            // … and the library must read the sentence as the value it denotes
+            match from_str(&t) {
+                Err(e) => out.fail("read_rejects", format!("from_str rejects the legal spelling {t:?}: {e}")),
+                Ok(b) => {
+                    if let Some(d) = same::diff(&v, &b, "v") {
+                        out.fail("read_differs", format!("{d}   (spelling {t:?})"));
+                    }
+                }
+            }
+            // the byte-exact decoder model on the same sentence
+            let reply = match from_str(&t) {
+                Ok(b) => format!("ok {}", vx::show(&b)),
+                Err(_) => "err".into(),
+            };
+            out.req(format!("C04 dec {}", vx::h(&t)), reply);
+        }
+        _ => out.fail("harness", format!("unknown mode {mode}")),
+    }
+}
+
+pub fn generate(ctx: &mut Ctx) {
+    for v in crate::c01::named_cases() {
+        ctx.case("w:named", &format!("w {}", vx::show(&v)));
+        for k in 0..8 {
+            ctx.case("r:named", &format!("r {} {}", 1000 + k, vx::show(&v)));
+        }
+    }
+    // escapes: every control character, the short escapes, BMP and astral characters, in Str and Uri
+    let mut all = String::new();
+    for u in 0u32..0x20 {
+        all.push(char::from_u32(u).unwrap());
+    }
+    all.push_str("\"\\$`'é€\u{ffff}😀");
+    for k in 0..24 {
+        ctx.case("r:escapes", &format!("r {} {}", 2000 + k, vx::show(&Value::make_str(&all))));
+        ctx.case("r:escapes", &format!("r {} {}", 2100 + k, vx::show(&Value::make_uri(" !\"$'`\\é€\u{ffff}😀"))));
+    }
+    ctx.case("w:escapes", &format!("w {}", vx::show(&Value::make_str(&all))));
+    ctx.case("w:escapes", &format!("w {}", vx::show(&Value::make_uri(" !\"$'`\\é€\u{ffff}😀"))));
+    let n = ctx.n(2500, 120_000);
+    for i in 0..n {
+        let mut rng = ctx.rng.fork();
+        let cfg = Cfg::wf(if i % 10 == 0 { 5 } else { 3 });
+        let v = if i % 3 == 0 { Value::Grid(gen::grid(&mut rng, &cfg, 0)) } else { gen::value(&mut rng, &cfg) };
+        let vt = vx::show(&v);
+        ctx.case("w:rand", &format!("w {vt}"));
+        let seed = rng.next() % 1_000_000;
+        ctx.case("r:rand", &format!("r {seed} {vt}"));
+        if i % 4 == 0 {
+            ctx.case("r:rand", &format!("r {} {vt}", seed + 1));
+        }
+    }
+    // thorough: many spellings of small values
+    if !ctx.quick() {
+        for i in 0..3000u64 {
+            let mut rng = ctx.rng.fork();
+            let v = gen::value(&mut rng, &Cfg::wf(2));
+            let vt = vx::show(&v);
+            for k in 0..16 {
+                ctx.case("r:enum", &format!("r {} {vt}", i * 16 + k));
+            }
+        }
+    }
+}
